@@ -2,12 +2,13 @@ package main
 
 import (
 	"fmt"
-	"reflect"
 	"go/ast"
+	"go/constant"
 	"go/token"
 	"go/types"
 	"os"
 	"path/filepath"
+	"reflect"
 	"sort"
 	"strings"
 
@@ -26,19 +27,20 @@ var repoPkgList = []string{
 }
 
 type Gen struct {
-	cs       *ContractSet
-	prog     *ssa.Program
-	pkgs     []*packages.Package
-	repoPkgs map[string]bool
-	allPkgs  []*types.Package
-	fset     *token.FileSet
-	occ      map[*ssa.Function]map[string][]token.Pos
-	src      map[string][]byte
-	funcs    map[string]*ssa.Function
-	sweep    []sweepItem // contract-less functions to analyse for crash-freedom only
-	typesPkg map[string]*types.Package
-	callees  map[*ssa.Function][]*ssa.Function
-	repoDir  string
+	cs        *ContractSet
+	prog      *ssa.Program
+	pkgs      []*packages.Package
+	repoPkgs  map[string]bool
+	allPkgs   []*types.Package
+	fset      *token.FileSet
+	occ       map[*ssa.Function]map[string][]token.Pos
+	src       map[string][]byte
+	funcs     map[string]*ssa.Function
+	sweep     []sweepItem // contract-less functions to analyse for crash-freedom only
+	rxGlobals map[string]string
+	typesPkg  map[string]*types.Package
+	callees   map[*ssa.Function][]*ssa.Function
+	repoDir   string
 }
 
 func LoadGen(repoDir string, cs *ContractSet) (*Gen, error) {
@@ -646,4 +648,47 @@ func (g *Gen) staticPure(fn *ssa.Function, seen map[*ssa.Function]bool) bool {
 		}
 	}
 	return true
+}
+
+// globalRegexps: package-level variables of this module initialised with regexp.MustCompile(<constant>).
+func (g *Gen) globalRegexps() map[string]string {
+	if g.rxGlobals != nil {
+		return g.rxGlobals
+	}
+	g.rxGlobals = map[string]string{}
+	seen := map[*ssa.Function]bool{}
+	for _, fn := range g.funcs {
+		if fn == nil || fn.Pkg == nil {
+			continue
+		}
+		init := fn.Pkg.Func("init")
+		if init == nil || seen[init] {
+			continue
+		}
+		seen[init] = true
+		for _, b := range init.Blocks {
+			for _, in := range b.Instrs {
+				st, ok := in.(*ssa.Store)
+				if !ok {
+					continue
+				}
+				gl, ok := st.Addr.(*ssa.Global)
+				if !ok {
+					continue
+				}
+				call, ok := st.Val.(*ssa.Call)
+				if !ok {
+					continue
+				}
+				callee := call.Common().StaticCallee()
+				if callee == nil || callee.String() != "regexp.MustCompile" || len(call.Common().Args) != 1 {
+					continue
+				}
+				if k, ok := call.Common().Args[0].(*ssa.Const); ok && k.Value != nil && k.Value.Kind() == constant.String {
+					g.rxGlobals[gl.Pkg.Pkg.Path()+"."+gl.Name()] = constant.StringVal(k.Value)
+				}
+			}
+		}
+	}
+	return g.rxGlobals
 }
